@@ -453,6 +453,9 @@ func typedReads(out *vutil.Out, t *testing.T, c codecCase, cut int, in []byte, r
 			}
 			wantData := body[6+int(body[1]):]
 			sched := schedules[(si+cut+c.N)%len(schedules)]
+			if len(in) > 200000 {
+				sched = schedules[3+(si+cut)%2] // megabyte bodies are not read octet by octet
+			}
 			data, rerr := readSched(l.Body, sched)
 			detail["schedule"] = sched
 			out.Case(fmt.Sprintf("lit:%s:%d:%d:%s:%v", c.Form, c.N, cut, sty.name, sched))
